@@ -203,12 +203,13 @@ wait:
 // bulk: all keys arrive as one paste of three-byte characters (the 128-byte reads of the input loop end inside
 // characters) and the application polls slowly throughout.
 func pipeDelivery(l *pipeLog, rng *rand.Rand, nkeys, nposters, nposts int, useChannel, bulk bool) error {
-	s, tty, err := newLiveScreen("xterm-256color", 20, 5)
+	s, tty, err := newLiveScreen("xterm-256color", 200, 60)
 	if err != nil {
 		return err
 	}
 	defer releaseTty(tty)
 	s.EnableFocus()
+	s.EnableMouse()
 	l.emit(trace.Ev{"ev": "Reset"})
 	l.emit(trace.Ev{"ev": "Start", "keys": nkeys, "posters": nposters, "posts": nposts, "channel": useChannel, "kRune": int(tcell.KeyRune)})
 	t0 := time.Now()
@@ -233,6 +234,12 @@ func pipeDelivery(l *pipeLog, rng *rand.Rand, nkeys, nposters, nposts int, useCh
 				e["id"] = int(v.Rune()) - 0x1000
 			}
 			if v.Key() != tcell.KeyRune {
+				e["kind"] = "other"
+			}
+		case *tcell.EventMouse: // a hover-motion report whose position encodes the sequence number
+			x, y := v.Position()
+			e["kind"], e["id"] = "in", y*180+x
+			if v.Buttons() != tcell.ButtonNone {
 				e["kind"] = "other"
 			}
 		case *tcell.EventInterrupt:
@@ -350,8 +357,13 @@ func pipeDelivery(l *pipeLog, rng *rand.Rand, nkeys, nposters, nposts int, useCh
 		n := 1 + rng.Intn(3)
 		var b []byte
 		ids := []int{}
+		mouse := rng.Intn(5) == 0 // this chunk's events are hover-motion reports instead of characters
 		for i := 0; i < n && k < nkeys; i++ {
-			b = append(b, []byte(string(idRune(k)))...)
+			if mouse {
+				b = append(b, []byte(fmt.Sprintf("\x1b[<35;%d;%dM", 1+k%180, 1+k/180))...)
+			} else {
+				b = append(b, []byte(string(idRune(k)))...)
+			}
 			ids = append(ids, k)
 			k++
 		}
@@ -378,7 +390,7 @@ func pipeDelivery(l *pipeLog, rng *rand.Rand, nkeys, nposters, nposts int, useCh
 			time.Sleep(time.Duration(rng.Intn(1500)) * time.Microsecond)
 		}
 		if rng.Intn(25) == 0 {
-			tty.SetSize(20+rng.Intn(5), 5, true)
+			tty.SetSize(200+rng.Intn(5), 60, true)
 		}
 		if rng.Intn(40) == 0 { // a long pause of the application: both queues fill up
 			time.Sleep(30 * time.Millisecond)
